@@ -308,7 +308,7 @@ impl Sim {
                     .live
                     .iter()
                     .any(|&t| matches!(st.tasks[t].status, Status::Detached { .. }));
-                if any_detached && waited < 2000 {
+                if any_detached && waited < 40 {
                     // give the real call time to come back (only reached when nothing
                     // else can move; never on a path where the condition model is right)
                     drop(st);
@@ -483,6 +483,7 @@ pub fn spawn(name: &'static str, f: Box<dyn FnOnce() + Send + 'static>) -> TaskI
         return 0;
     }
     let (sim, _me) = cur().expect("spawn outside sim");
+    reattach_if_detached();
     let slot = Slot::new();
     let id;
     {
